@@ -20,8 +20,14 @@ ASSUMPTIONS = [
     'reference strings are modelled in parsed form (stage, producer, file, method); the parser is exercised by the '
     'correspondence only (C09 is about it); validation errors of instantiate_dowhile are not modelled (documents load)',
     'no replication inside the loop; the (stage, name) pairs of the looped components are pairwise distinct (the same '
-    'name may be used in two stages), names contain no "#" and differ from binding and outside names; '
-    ':loopref/:loopoutput are used by consumers outside the loop only',
+    'name may be used in two stages), names contain no "#" and differ from binding names; components outside the '
+    'loop (bound producers, producers referenced directly from inside the loop, consumers) may have the name of a '
+    'looped component of another stage; :loopref/:loopoutput are used by consumers outside the loop only',
+    'Controller-driven cases: a real experiment.runtime.control.Controller over real ComponentState objects '
+    'instantiates the iterations (Controller._instantiate_next_dowhile_iteration) and inspects the workflow '
+    '(initialise / generate_status_report_for_nodes / _comp_get_active_predecessors / get_node_state / '
+    '_true_nodes_from_identifiers / _input_dependencies_satisfied); no task is launched: Controller._schedule, '
+    'finishedCheck and the resolution done by a running consumer are not exercised',
     'files read by :output/:loopoutput are created by the harness with contents naming their producer',
     'command-line arguments of RANDOMLY generated components never contain two references one of which is a '
     'word-bounded substring of the other: the sequential regular-expression substitution of rewrite_all_references '
@@ -603,8 +609,11 @@ def corpus():
 
 def run(ctx):
     ctx.rule = ('generated DoWhile package (import stage, 1-4 looped components over up to 3 stages, input bindings '
-                'bound outside, loop bindings, internal references, condition, outside consumers with '
-                ':ref/:output/:copy/:loopref/:loopoutput) x number of further iterations k; non-trivial = k >= 2, at '
+                'bound outside, loop bindings, internal references, direct references to outside components, '
+                'condition, outside producers/consumers ~35% of which reuse the name of a looped component in '
+                'another stage, consumers with :ref/:output/:copy/:loopref/:loopoutput) x number of further '
+                'iterations k x driver (bare WorkflowGraph, or ~45% a real Controller that instantiates the '
+                'iterations and inspects the workflow after each / after the last one); non-trivial = k >= 2, at '
                 'least one loop binding and at least two looped components; distinct by the whole case')
     rng = ctx.rng
     ks = KS_QUICK if ctx.tier == 'quick' else KS_THOROUGH
